@@ -38,7 +38,8 @@
      vm_compute in the examples and is part of check_case in the correspondence). *)
 From Coq Require Import PrimFloat.
 From Hio Require Import Base.Prelude Base.AMap Base.Time Model.Sched
-  Proofs.SchedFlatDefs Proofs.SchedFlatRun Proofs.SchedFlatSim Proofs.SchedFlatTop.
+  Proofs.SchedFlatDefs Proofs.SchedFlatRun Proofs.SchedFlatSim Proofs.SchedFlatTop
+  Proofs.SchedTreeDefs Proofs.SchedTreeRun Proofs.SchedTreeSim Proofs.SchedTreeTop.
 
 (* ---------- the refutation: D35 ---------- *)
 
@@ -180,6 +181,93 @@ Proof. split; vm_compute; reflexivity. Qed.
 
 (* the refutation witness violates exactly the hypothesis on tocks *)
 Example C04_witness_excluded : forallb no_asap_then_positive (grouped_leaves wz_group) = false.
+Proof. reflexivity. Qed.
+
+(* ---------- arbitrary depth: regrouping trees ---------- *)
+
+(* A regrouping TREE: [TLeaf l] or [TGroup n kids] where the kids are again trees — a
+   tock-z0, non-always DoDoer may hold leaves and further such DoDoers, to any depth.
+   [gflatten] lists the leaves in tree order (= the flat program), [tgrouped_leaves]
+   those below at least one DoDoer.  Same three time laws, same hypothesis on every
+   grouped leaf, same conclusion as C04_flatten_partial. *)
+Theorem C04_flatten_deep_partial :
+  forall (T : Type) (TT : Time T) (tk : T) (limit : option T) (t0 z0 : T)
+         (gs : list (gtree T)) (c1 f1 c2 f2 : nat),
+    flat_laws tk z0 ->
+    wf_tree gs ->
+    forallb no_asap_then_positive (tgrouped_leaves gs) = true ->
+    oof (do_run c1 f1 (tnest_prog tk limit t0 z0 gs)) = false ->
+    oof (do_run c2 f2 (flat_prog tk limit t0 (gflatten gs))) = false ->
+    leaf_view (map lf_id (gflatten gs)) (do_run c1 f1 (tnest_prog tk limit t0 z0 gs)) =
+    leaf_view (map lf_id (gflatten gs)) (do_run c2 f2 (flat_prog tk limit t0 (gflatten gs))).
+Proof. intros. now apply flatten_deep_run. Qed.
+Print Assumptions C04_flatten_deep_partial.
+
+Theorem C04_flatten_deep_partial_Z :
+  forall (tk : Z) (limit : option Z) (t0 : Z) (gs : list (gtree Z)) (c1 f1 c2 f2 : nat),
+    (0 <= tk)%Z ->
+    wf_tree gs ->
+    forallb no_asap_then_positive (tgrouped_leaves gs) = true ->
+    oof (do_run c1 f1 (tnest_prog tk limit t0 0%Z gs)) = false ->
+    oof (do_run c2 f2 (flat_prog tk limit t0 (gflatten gs))) = false ->
+    leaf_view (map lf_id (gflatten gs)) (do_run c1 f1 (tnest_prog tk limit t0 0%Z gs)) =
+    leaf_view (map lf_id (gflatten gs)) (do_run c2 f2 (flat_prog tk limit t0 (gflatten gs))).
+Proof. intros. apply flatten_deep_run; auto using flat_laws_Z. Qed.
+Print Assumptions C04_flatten_deep_partial_Z.
+
+(* the model-side half at arbitrary depth, no hypothesis on tocks *)
+Theorem C04_tree_run_spec :
+  forall (T : Type) (TT : Time T) (tk : T) (limit : option T) (t0 z0 : T)
+         (gs : list (gtree T)) (cycles fuel : nat),
+    wf_tree gs ->
+    oof (do_run cycles fuel (tnest_prog tk limit t0 z0 gs)) = false ->
+    exists r, tspec_run tk (tabs z0) cycles limit t0 gs = Some r /\
+              leaf_view (map lf_id (gflatten gs)) (do_run cycles fuel (tnest_prog tk limit t0 z0 gs)) =
+              view_of (map lf_id (gflatten gs)) r.
+Proof. intros. now apply tree_run_spec. Qed.
+Print Assumptions C04_tree_run_spec.
+
+(* a depth-3 regrouping of the six example leaves:
+   root [ ee ; 10 [ ea ; 11 [ eb ; 12 [ ec ; ed ] ] ; 13 [] ] ; 14 [ 15 [ ef ] ] ] *)
+Definition ex_tree : list (gtree Z) :=
+  [TLeaf ee;
+   TGroup 10%N [TLeaf ea; TGroup 11%N [TLeaf eb; TGroup 12%N [TLeaf ec; TLeaf ed]]; TGroup 13%N []];
+   TGroup 14%N [TGroup 15%N [TLeaf ef]]].
+
+Example C04_deep_example_hyps :
+  wf_tree ex_tree /\
+  forallb no_asap_then_positive (tgrouped_leaves ex_tree) = true /\
+  oof (do_run 40 300 (tnest_prog 2%Z None 10%Z 0%Z ex_tree)) = false /\
+  oof (do_run 30 100 (flat_prog 2%Z None 10%Z (gflatten ex_tree))) = false /\
+  oof (do_run 40 300 (tnest_prog 2%Z (Some 9%Z) 10%Z 0%Z ex_tree)) = false /\
+  oof (do_run 30 100 (flat_prog 2%Z (Some 9%Z) 10%Z (gflatten ex_tree))) = false.
+Proof.
+  split; [|repeat split; vm_compute; reflexivity].
+  split; [|reflexivity]. vm_compute. repeat constructor; cbn; intuition discriminate.
+Qed.
+
+Example C04_deep_example_use :
+  leaf_view (map lf_id (gflatten ex_tree)) (do_run 40 300 (tnest_prog 2%Z None 10%Z 0%Z ex_tree)) =
+  leaf_view (map lf_id (gflatten ex_tree)) (do_run 30 100 (flat_prog 2%Z None 10%Z (gflatten ex_tree))) /\
+  leaf_view (map lf_id (gflatten ex_tree)) (do_run 40 300 (tnest_prog 2%Z (Some 9%Z) 10%Z 0%Z ex_tree)) =
+  leaf_view (map lf_id (gflatten ex_tree)) (do_run 30 100 (flat_prog 2%Z (Some 9%Z) 10%Z (gflatten ex_tree))).
+Proof.
+  destruct C04_deep_example_hyps as (W & Hy & O1 & O2 & O3 & O4).
+  split; apply C04_flatten_deep_partial_Z; auto; lia.
+Qed.
+
+(* not trivial: the DoDoers really run (recur events of the depth-3 DoDoer 12), leaves are
+   force-closed under the limit through three levels of DoDoers *)
+Example C04_deep_example_nontrivial :
+  existsb (fun e => match e_kind e with Recur => N.eqb (e_id e) 12 | _ => false end)
+          (trace (do_run 40 300 (tnest_prog 2%Z None 10%Z 0%Z ex_tree))) = true /\
+  existsb (fun e => match e_kind e with Cease => N.eqb (e_id e) 4 | _ => false end)
+          (trace (do_run 40 300 (tnest_prog 2%Z (Some 9%Z) 10%Z 0%Z ex_tree))) = true.
+Proof. split; vm_compute; reflexivity. Qed.
+
+(* the D35 witness as a tree violates the hypothesis *)
+Example C04_deep_witness_excluded :
+  forallb no_asap_then_positive (tgrouped_leaves [TGroup 3%N [TLeaf wz1; TLeaf wz2]]) = false.
 Proof. reflexivity. Qed.
 
 (* the lifecycle invariant that the argument relies on (Props/C01.v) still holds for every run *)
